@@ -68,6 +68,12 @@ class C18(Check):
         SM.install(ctx)
         from checks import stdio as ST
         ST.install(ctx)
+        from checks import C13
+        ctx.env_class(C13.T_HOLDER)
+
+    def modular(self):
+        from checks import C13
+        return C13.CHECK.modular()
 
     def contracts(self):
         from checks import C13
@@ -75,10 +81,16 @@ class C18(Check):
         # streams: the routing contract (a waiter registered under another id is never handed this message) is
         # re-verified here
         return [SendMessageC18(False, False, id_mode="given"), SendMessageC18(False, False, id_mode="uuid"),
-                C13.RouteMessage(), C13.NewRequestStream()]
+                C13.RouteMessage(), C13.NewRequestStream(),
+                # a response that arrives inside a batch must reach its caller whatever its neighbours look like: every valid
+                # member is delivered in order, an invalid member is dropped alone (C13 transport contract)
+                C13.ProcessMessageData("dated", "batch"), C13.ProcessMessageData("none", "batch")]
 
     def loop_invariants(self):
-        return {(AWAIT_KEY, 0): SM.await_loop_invariant("C18")}
+        from checks import C13
+        inv = dict(C13.CHECK.loop_invariants())
+        inv[(AWAIT_KEY, 0)] = SM.await_loop_invariant("C18")
+        return inv
 
     def canaries(self):
         return [
